@@ -197,7 +197,8 @@ func (c *FnCtx) elemLeaves(t types.Type) (paths []string, sorts map[string]Sort,
 // Fresh values
 // ---------------------------------------------------------------------------
 
-const maxLen = "#x0000010000000000" // 2^40: address-space bound on len/cap (listed assumption)
+const maxLen = "#x0000010000000000"   // 2^40: assumed bound on the length of caller-supplied slices
+const allocMax = "#x0001000000000000" // 2^48: bound on slices produced by make/append (allocation succeeds): address-space bound on len/cap (listed assumption)
 
 // freshVal declares a fresh symbolic value of type t. Facts about it (slice length ranges) are
 // returned as wf and must be assumed by the caller.
